@@ -338,3 +338,35 @@ where
     }
     kani::cover!(if EDIT == 0 { v.is_ok() } else { v.is_err() }, "the expected outcome is reachable");
 }
+
+/// C06: a commitment-with-proof truncated or extended by whole scalars / odd octet counts to LEN
+/// octets (canonical framing, symbolic payload) that is not of the form 112 + 32k is refused by
+/// `blind_sign`; one of the form 112 + 32k whose proof was made for fewer / more messages is covered by
+/// the bit-flip and challenge checks of `issuance_flow`.
+pub fn malformed_commitment_refused<CS: BbsCiphersuite, const LEN: usize, const L: usize>()
+where
+    CS::Expander: for<'a> elliptic_curve::hash2curve::ExpandMsg<'a>,
+{
+    let sk = BBSplusSecretKey(Scalar::from_nonzero_raw(5));
+    let pk = sk.public_key();
+    let msgs = any_msgs::<L, 1>();
+    let mut buf = [0u8; LEN];
+    if LEN >= 48 {
+        put_g1(&mut buf, 0);
+        let mut off = 48;
+        while off + 32 <= LEN {
+            put_scalar(&mut buf, off);
+            off += 32;
+        }
+        while off < LEN {
+            buf[off] = kani::any();
+            off += 1;
+        }
+    }
+    program(6);
+    tp!("kind", "op"); tp!("entry", "blind_sign"); tp!("suite", crate::h::c08::suite_tag::<CS>()); tp!("pk", 5); tp!("commitment", &buf[..]); tp!("msgs", &[1u8; L][..]);
+    let r = BlindSignature::<BBSplus<CS>>::blind_sign(&sk, &pk, Some(&buf[..]), None, Some(&msgs));
+    oracle().on = false;
+    kani::cover!(r.is_err(), "refused");
+    assert!(r.is_err(), "C06: blind_sign issued a signature for a truncated / malformed commitment-with-proof");
+}
